@@ -534,6 +534,21 @@ def _counting_receiver(prog, res, fi, c, k, tag, sends) -> None:
     foreign = [(f, s) for f, s in sent if not any(ff is f for ff, _ in data)]
     if foreign:
         ok_send = False
+    # the loop ends when the last sender has signed off: its test is false for a counter of 0 and true for 1, 2
+    try:
+        ttab = {v: bool(ceval(lp.test, {counter: v})) for v in (0, 1, 2)} if not (isinstance(lp.test, ast.Constant) and lp.test.value is True) else None
+    except Unknown:
+        ttab = None
+    if ttab is not None and ttab != {0: False, 1: True, 2: True}:
+        res.violation(
+            "C06.R3",
+            fi,
+            lp,
+            f"the receive loop `while {unparse(lp.test)}` is {ttab} for 0, 1, 2 senders still active: "
+            + ("with no sender left it waits for another message that never comes (the rank blocks forever)" if ttab.get(0) else "it stops while a sender is still active (its remaining records are never written)"),
+            key_extra=f"recv-loop-test-{fi.name}",
+        )
+        return
     if ok_branch and ok_init and ok_send:
         res.ok("C06.R3", res.site(fi, norm_stmt(c)[:50]), "one sentinel per sending rank: counter starts at len(active_ranks), is decremented only for sentinels, every sender sends its sentinel after its data (per-sender FIFO)")
     else:
@@ -848,6 +863,10 @@ def rule_r6(prog, res) -> None:
                 fnm = par.func.attr if isinstance(par.func, ast.Attribute) else (dotted(par.func) or "")
                 if fnm in BCAST_FAMILY:
                     ctx = "bcast"
+                    # … from the rank that holds the value: the root rank is rank 0 (parallel.on_root)
+                    rt_ = kwarg(par, "root") or (par.args[1] if fnm in ("bcast", "Bcast") and len(par.args) > 1 else None)
+                    if isinstance(rt_, ast.Constant) and rt_.value not in (0, None):
+                        res.violation("C06.R6", f, par, f"`{node.id if isinstance(node, ast.Name) else unparse(node)[:30]}` is computed on the root rank (rank 0) but broadcast with root={rt_.value}: every rank, the root included, receives the placeholder of rank {rt_.value}", key_extra=f"bcast-root-{rt_.value}")
             elif isinstance(par, ast.Return):
                 ctx = "return"
             elif isinstance(par, ast.Compare) and all(isinstance(o, (ast.Is, ast.IsNot)) for o in par.ops):
